@@ -118,7 +118,7 @@ func (r *Report) Finish() int {
 	if r.WriteClaims {
 		var names []string
 		for _, v := range r.Verdicts {
-			if v.Status == "discharged" && v.Ms < 3000 {
+			if v.Status == "discharged" && v.Ms < 3000 && !strings.HasPrefix(v.Ob.Kind, "safety.") && v.Ob.Kind != "wframe" {
 				names = append(names, v.Ob.Name)
 			}
 		}
@@ -127,6 +127,36 @@ func (r *Report) Finish() int {
 		for _, fr := range r.Results {
 			if fr.Stale || fr.Contract == nil {
 				continue
+			}
+			if fr.Contract.WriteFrame {
+				// claim "no write outside fresh/context memory" only for functions that are clean now
+				clean := true
+				pre := shortOfKey(fr.Key) + "/"
+				for _, v := range r.Verdicts {
+					if v.Ob.Kind == "wframe" && strings.HasPrefix(v.Ob.Name, pre) && v.Status != "discharged" {
+						clean = false
+					}
+				}
+				if clean && fr.Err == "" {
+					names = append(names, pre+"wframe#*")
+				}
+			}
+			if fr.Contract.Safety && fr.Err == "" {
+				// per function and kind of run-time panic: claimed only where every obligation of that kind
+				// discharges now (a kind without any obligation is claimed too: a later edit that
+				// introduces one must discharge it)
+				pre := shortOfKey(fr.Key) + "/"
+				for _, kind := range []string{"safety.index", "safety.slice", "safety.assert", "safety.panic", "safety.mapnil", "safety.div", "safety.nil", "safety.nilsignal", "safety.termination"} {
+					clean := true
+					for _, v := range r.Verdicts {
+						if v.Ob.Kind == kind && strings.HasPrefix(v.Ob.Name, pre) && (v.Status != "discharged" || v.Ms >= 3000) {
+							clean = false
+						}
+					}
+					if clean {
+						names = append(names, pre+kind+"#*")
+					}
+				}
 			}
 			if len(fr.Contract.NoMapRange) > 0 {
 				pre := shortOfKey(fr.Key) + "/"
@@ -150,6 +180,7 @@ func (r *Report) Finish() int {
 	var violations []string
 	var knownLines []string
 	nClaimed, nDischarged := 0, 0
+	notAttempted := 0
 	var undecided []string
 	var evObs []obEvidence
 	bySolver := map[string]int{}
@@ -194,6 +225,10 @@ func (r *Report) Finish() int {
 			continue
 		}
 		if !claimed {
+			if v.Status == "not-attempted" {
+				notAttempted++
+				continue
+			}
 			if v.Status != "discharged" {
 				undecided = append(undecided, name+" ("+v.Status+")")
 				if r.Verbose {
@@ -306,6 +341,7 @@ func (r *Report) Finish() int {
 		"vcgen_s":                       round1(r.GenS),
 		"solvers":                       []string{"z3 4.8.12", "z3 5.1.0 (z3-new)", "cvc5 1.0"},
 		"generated_obligations_total":   len(r.Verdicts),
+		"unclaimed_not_attempted":       notAttempted,
 	}
 	assumptions := []string{
 		"govc (this VC generator) is sound for the SSA subset it translates; unsupported constructs are over-approximated (unconstrained values / havocked heap) and listed under unsupported_constructs",
